@@ -166,6 +166,7 @@ func runX(cf xConf, choices []int, free bool) xRun {
 	if free {
 		s.Release()
 	}
+	defer attachFine(s, free)()
 	var mu sync.Mutex
 	res := xRun{rets: make([][]string, len(cf.progs))}
 	cur := map[string]*xOp{}
@@ -276,9 +277,10 @@ func xBad() xOp {
 func xExplore(c *core.Ctx, cf xConf, max int, judge func(run xRun, replay map[string]interface{})) (int, bool) {
 	distinct := map[string]bool{}
 	readers := fmt.Sprint(len(cf.plan) + 4)
-	n, ex := sched.Explore(max, func(choices []int) []int {
+	n, ex := explore(c, max, func(choices []int) []int {
 		c.InFlight(map[string]interface{}{"configuration": cf.name, "programs": cf.modelProgs(), "plan": cf.modelPlan(), "choices": fmt.Sprint(choices)})
 		run := runX(cf, choices, false)
+		choices = effective(choices, run.widths)
 		c.Eval()
 		tr := strings.Join(run.events, ";")
 		if tr == "" {
@@ -342,6 +344,7 @@ func xExplore(c *core.Ctx, cf xConf, max int, judge func(run xRun, replay map[st
 
 // C17: websocket client — one frame per message, sticky read errors, safe lifecycle.
 func C17(c *core.Ctx) {
+	fine := setFine(c)
 	r := rand.New(rand.NewSource(c.Seed))
 	C1, C0, D, R1, R0 := xOp{kind: "C", dialOK: true}, xOp{kind: "C", dialOK: false}, xOp{kind: "D"}, xOp{kind: "R", dialOK: true}, xOp{kind: "R", dialOK: false}
 	raw := xOp{kind: "W", raw: []byte{0x93, 1, 2}, wok: true}
@@ -372,6 +375,12 @@ func C17(c *core.Ctx) {
 			s[i] = r.Intn(len(alphabet))
 		}
 		seqs = append(seqs, s)
+	}
+	if fine { // the fine-grained phase keeps a sample of the histories: pools are adversarial (LIFO), locks are yield points
+		r.Shuffle(len(seqs), func(i, j int) { seqs[i], seqs[j] = seqs[j], seqs[i] })
+		if len(seqs) > c.N(30, 600) {
+			seqs = seqs[:c.N(30, 600)]
+		}
 	}
 	for si, seq := range seqs {
 		plan := plans[si%len(plans)]
@@ -408,10 +417,15 @@ func C17(c *core.Ctx) {
 		}
 		confs = append(confs, xConf{name: fmt.Sprintf("failed encode (%d bytes before the bad value) then sends, repeated", n), progs: [][]xOp{prog}, max: 2})
 	}
-	c17SelfClosed(c)
+	if !fine {
+		c17SelfClosed(c)
+	}
 	total, allEx := 0, true
 	for _, cf := range confs {
 		max := c.N(70, 10000)
+		if fine {
+			max = c.N(15, 2000)
+		}
 		if cf.max > 0 {
 			max = cf.max
 		}
@@ -421,7 +435,7 @@ func C17(c *core.Ctx) {
 		c.Sample(map[string]interface{}{"configuration": cf.name, "schedules": n, "exhaustive": ex})
 	}
 	// (c) free running under the race detector
-	for it := 0; it < c.N(100, 3000); it++ {
+	for it := 0; it < c.N(100, 3000) && !fine; it++ {
 		cf := confs[it%len(confs)]
 		run := runX(cf, nil, true)
 		c.Eval()
